@@ -111,16 +111,16 @@ Definition range_clean (ct : check_type) (p : Z) (xs : list obs) (ts : list Z) :
 
 Definition atten_dom (ct : check_type) (test_period min_obs min_period : option Z)
     (xs : list obs) (ts : list Z) : Prop :=
+  xs <> [] ->                                      (* the empty series is returned as is *)
   match period_of test_period with
-  | None => ct = Range -> xs <> []                 (* np.ptp of an empty array raises *)
+  | None => True                                   (* whole-series mode: no condition *)
   | Some p =>
       (0 < p)%Z /\ length ts = length xs /\ increasing ts /\
       (exists m, min_periods min_obs min_period ts = Some m /\ (0 <= m)%Z) /\
       range_clean ct p xs ts
   end.
 
-(* Full statement (without atten_dom) is false: see atten_refuted_range_nan and
-   atten_refuted_empty_range below.
+(* Full statement (without atten_dom) is false: see atten_refuted_range_nan below.
      forall check st ft tp mo mp xs ts, atten_model check st ft tp mo mp xs ts = atten_spec ... *)
 Lemma atten_refines check st ft tp mo mp xs ts :
   (forall ct, parse_check_type check = Some ct -> atten_dom ct tp mo mp xs ts) ->
@@ -129,6 +129,11 @@ Proof.
   unfold atten_model, atten_spec. intros Hdom.
   destruct (parse_check_type check) as [ct|]; [|reflexivity].
   specialize (Hdom ct eq_refl). unfold atten_dom in Hdom.
+  destruct xs as [|x0 xs']; [reflexivity|].
+  remember (x0 :: xs') as xs eqn:Exs.
+  assert (Hne : xs <> []) by (subst; discriminate).
+  assert (Hn0 : Nat.eqb (length xs) 0 = false) by (subst; reflexivity).
+  rewrite Hn0. specialize (Hdom Hne). clear Exs.
   destruct (period_of tp) as [p|].
   - destruct Hdom as (Hp & Hlen & Hinc & (m & Hm & Hm0) & Hclean).
     unfold minp_of. rewrite Hm. rewrite Hlen, Nat.eqb_refl. simpl negb.
@@ -149,9 +154,7 @@ Proof.
     { apply (present_in x). unfold w. apply in_map_iff. exists i. split; [exact Ex|].
       apply window_self; assumption. }
     rewrite Hall. destruct (Nat.ltb_spec (length (present w)) 1); [lia|reflexivity].
-  - assert (E : match ct with Range => Nat.eqb (length xs) 0 | Std => false end = false).
-    { destruct ct; [reflexivity|]. destruct xs; [exfalso; apply Hdom; reflexivity|reflexivity]. }
-    rewrite E. rewrite atten_flags_tab. reflexivity.
+  - rewrite atten_flags_tab. reflexivity.
 Qed.
 
 Lemma atten_bad_check_type check st ft tp mo mp xs ts :
@@ -184,12 +187,6 @@ Lemma atten_refuted_range_nan_flags :
     = Flags [FAIL; MISSING; UNKNOWN] /\
   atten_spec "range" 5 1 (Some 3%Z) None None [Some 0; None; Some 3] [0; 1000000000; 2000000000]%Z
     = Flags [FAIL; MISSING; SUSPECT].
-Proof. split; vm_compute; reflexivity. Qed.
-
-(* check_type "range" without test_period on an empty series raises instead of returning no flags *)
-Lemma atten_refuted_empty_range :
-  atten_model "range" 5 1 None None None [] [] = Raises ValueError /\
-  atten_spec "range" 5 1 None None None [] [] = Flags [].
 Proof. split; vm_compute; reflexivity. Qed.
 
 (* ---------------------------------------------------------------- decision list *)
@@ -754,14 +751,15 @@ Lemma atten_model_pointwise check st ft tp mo mp xs ts l :
     l = tab (length xs) (fun i => flag_of ct st ft (getq xs i) (s i)).
 Proof.
   unfold atten_model. destruct (parse_check_type check) as [ct|]; [|discriminate].
+  destruct (Nat.eqb_spec (length xs) 0) as [E0|_].
+  { intros H. inversion H. exists ct, (fun _ => None). rewrite E0. split; reflexivity. }
   destruct (period_of tp) as [p|].
   - destruct (min_periods mo mp ts) as [m|]; [|discriminate].
     destruct (negb (Nat.eqb (length ts) (length xs))); [discriminate|].
     destruct (negb (mono_inc ts || mono_dec ts)); [discriminate|].
     destruct (m <? 0)%Z; [discriminate|].
     rewrite atten_flags_tab. intros H. inversion H. eexists ct, _. split; reflexivity.
-  - destruct (match ct with Std => false | Range => Nat.eqb (length xs) 0 end); [discriminate|].
-    rewrite atten_flags_tab. intros H. inversion H. eexists ct, _. split; reflexivity.
+  - rewrite atten_flags_tab. intros H. inversion H. eexists ct, _. split; reflexivity.
 Qed.
 
 Lemma flag_of_missing_iff ct st ft x s : flag_of ct st ft x s = MISSING <-> x = None.
@@ -856,14 +854,22 @@ Qed.
 
 (* ---------------------------------------------------------------- instances of the refinement *)
 
-(* no test_period (None or 0): no hypothesis on the time axis at all; only "range" of an empty
-   series is excluded *)
+(* no test_period (None or 0): no hypothesis at all *)
 Lemma atten_refines_whole check st ft tp mo mp xs ts :
-  period_of tp = None -> xs <> [] ->
+  period_of tp = None ->
   atten_model check st ft tp mo mp xs ts = atten_spec check st ft tp mo mp xs ts.
 Proof.
-  intros Hp Hx. apply atten_refines. intros ct _. unfold atten_dom. rewrite Hp. intros _. exact Hx.
+  intros Hp. apply atten_refines. intros ct _. unfold atten_dom. rewrite Hp. intros _. exact I.
 Qed.
+
+(* the empty series: no hypothesis at all (not even on the parameters) *)
+Lemma atten_refines_empty check st ft tp mo mp ts :
+  atten_model check st ft tp mo mp [] ts = atten_spec check st ft tp mo mp [] ts.
+Proof. apply atten_refines. intros ct _ H. congruence. Qed.
+
+Lemma atten_model_empty check st ft tp mo mp ts ct :
+  parse_check_type check = Some ct -> atten_model check st ft tp mo mp [] ts = Flags [].
+Proof. intros H. unfold atten_model. rewrite H. reflexivity. Qed.
 
 (* rolling standard deviation: increasing axis, positive period, admissible min_periods; any
    placement of missing values *)
@@ -873,7 +879,7 @@ Lemma atten_refines_std_rolling st ft p mo mp xs ts m :
   atten_model "std" st ft (Some p) mo mp xs ts = atten_spec "std" st ft (Some p) mo mp xs ts.
 Proof.
   intros Hp Hl Hi Hm Hm0. apply atten_refines. intros ct Hct. inversion Hct; subst ct.
-  unfold atten_dom, period_of. destruct (Z.eqb_spec p 0) as [->|_]; [lia|].
+  unfold atten_dom, period_of. intros _. destruct (Z.eqb_spec p 0) as [->|_]; [lia|].
   repeat split; try assumption.
   - exists m. split; assumption.
   - intros H. discriminate.
@@ -887,7 +893,7 @@ Lemma atten_refines_range_rolling st ft p mo mp xs ts m :
   atten_model "range" st ft (Some p) mo mp xs ts = atten_spec "range" st ft (Some p) mo mp xs ts.
 Proof.
   intros Hp Hl Hi Hm Hm0 Hc. apply atten_refines. intros ct Hct. inversion Hct; subst ct.
-  unfold atten_dom, period_of. destruct (Z.eqb_spec p 0) as [->|_]; [lia|].
+  unfold atten_dom, period_of. intros _. destruct (Z.eqb_spec p 0) as [->|_]; [lia|].
   repeat split; try assumption. exists m. split; assumption.
 Qed.
 
